@@ -29,6 +29,7 @@ fn main() {
         "provision" => vdrv::provision::main(),
         "keykeeper" => vdrv::keykeeper::main(),
         "robust" => vdrv::robust::main(),
+        "status" => vdrv::status::main(),
         other => {
             eprintln!("verif-agent: unknown VERIF_CMD '{}'", other);
             2
